@@ -183,6 +183,8 @@ func parseBitsTok(s string) (float64, bool) {
 	return math.Float64frombits(b), true
 }
 
+var kirkRigTick int
+
 func newKirkRig(dir string, T, a float64, m model.Model, objectiveName string) (*kirkRig, string) {
 	k := &kirkRig{dir: dir, src: &scriptedSource{}, rec: &kirkRecorder{}}
 	p := protect(func() {
@@ -202,6 +204,20 @@ func newKirkRig(dir string, T, a float64, m model.Model, objectiveName string) (
 			ke.SetParameters(params)
 		}
 		ke.SetModel(m)
+		// every other rig: a clone of the configured explorer (as every run of a scenario is) is re-parameterised with the
+		// OPPOSITE direction before this explorer is used — what one explorer is told must not reach another
+		kirkRigTick++
+		if dir != "unset" && kirkRigTick%2 == 0 {
+			opposite := parameters.Map{kirkpatrick.OptimisationDirection: "Maximising"}
+			if dir == "max" {
+				opposite[kirkpatrick.OptimisationDirection] = "Minimising"
+			}
+			protect(func() {
+				if sib, ok := ke.DeepClone().(*kirkpatrick.Explorer); ok {
+					sib.SetParameters(opposite)
+				}
+			})
+		}
 		ke.Initialise()
 		// after Initialise (which re-seeds from the clock): scripted draws
 		ke.SetRandomNumberGenerator(cremrand.New(k.src))
